@@ -83,6 +83,11 @@ pub trait RangeNumber: FromStr + PartialOrd + Copy + MaybeToTokens {
     fn from_u64(v: u64) -> Option<Self>;
     fn from_i64(v: i64) -> Option<Self>;
     fn from_f64(v: f64) -> Option<Self>;
+
+    /// `false` for NaN and the infinities: they can't be written as a literal in the generated code.
+    fn is_finite_number(self) -> bool {
+        true
+    }
 }
 
 // pub trait RangeInteger: RangeNumber {}
@@ -177,10 +182,13 @@ impl<T: RangeNumber> Range<T> {
 
     pub fn new(s: &str) -> Result<Self> {
         let parse = |s: &str| {
-            s.parse::<T>().map_err(|_| Error::RangeParse {
-                range: s.to_string(),
-                range_type: T::TYPE,
-            })
+            s.parse::<T>()
+                .ok()
+                .filter(|v| v.is_finite_number())
+                .ok_or_else(|| Error::RangeParse {
+                    range: s.to_string(),
+                    range_type: T::TYPE,
+                })
         };
         let s = s.trim();
         if matches!(s, "_" | "..") {
@@ -1156,6 +1164,10 @@ mod range_number_impl {
 
                     fn from_f64(v: f64) -> Option<Self> {
                         Some(v as $num_type)
+                    }
+
+                    fn is_finite_number(self) -> bool {
+                        self.is_finite()
                     }
                 }
 
